@@ -70,6 +70,25 @@ theorem rneInt_ge_of_ge (r : ℚ) (n : ℤ) (h : (n : ℚ) ≤ r) : n ≤ rneInt
   have hf : n ≤ ⌊r⌋ := Int.le_floor.2 h
   rcases rneInt_cases r with e | e <;> omega
 
+/-- ★ the rounding is *nearest*: the error is at most half a unit in the last place -/
+theorem rneQ_half_ulp (x : ℚ) : |rneQ x - x| ≤ 2 ^ cexp x / 2 := by
+  have hp : (0 : ℚ) < 2 ^ cexp x := zpow_pos (by norm_num) _
+  have key : ∀ y : ℚ, |(rneInt (y / 2 ^ cexp x) : ℚ) * 2 ^ cexp x - y| ≤ 2 ^ cexp x / 2 := by
+    intro y
+    have h := rneInt_half (y / 2 ^ cexp x)
+    have e : (rneInt (y / 2 ^ cexp x) : ℚ) * 2 ^ cexp x - y = ((rneInt (y / 2 ^ cexp x) : ℚ) - y / 2 ^ cexp x) * 2 ^ cexp x := by
+      field_simp
+    rw [e, abs_mul, abs_of_pos hp]
+    calc |(rneInt (y / 2 ^ cexp x) : ℚ) - y / 2 ^ cexp x| * 2 ^ cexp x ≤ 1 / 2 * 2 ^ cexp x :=
+          mul_le_mul_of_nonneg_right h hp.le
+      _ = 2 ^ cexp x / 2 := by ring
+  unfold rneQ
+  split
+  · have := key (-x)
+    rw [show -((rneInt (-x / 2 ^ cexp x) : ℚ) * 2 ^ cexp x) - x = -((rneInt (-x / 2 ^ cexp x) : ℚ) * 2 ^ cexp x - -x) by ring, abs_neg]
+    exact this
+  · exact key x
+
 /-! ## the integer rounding of the model -/
 
 theorem rneDiv_spec (N D : Nat) (hD : 0 < D) : ((rneDiv N D : Nat) : ℤ) = rneInt ((N : ℚ) / D) := by
@@ -672,5 +691,289 @@ theorem sub_correct (a b : Nat) (n1 n2 : Bool) (m1 m2 : Nat) (e1 e2 : ℤ)
   have := add_correct a (negate b) n1 (!n2) m1 m2 e1 e2 ha hn
   rw [hv, ← sub_eq_add_neg] at this
   exact this
+
+/-! ## `floor` is exact -/
+
+/-- integers up to 2^52 are fixed by the rounding (every binary64 is; this is all `floor` needs) -/
+theorem rneQ_small_nat (n : Nat) (hn : n ≤ 4503599627370496) : rneQ (n : ℚ) = n := by
+  by_cases h0 : n = 0
+  · subst h0; simpa using rneQ_zero
+  have hpos : (0 : ℚ) < n := by exact_mod_cast Nat.pos_of_ne_zero h0
+  have hlt : (n : ℚ) < (2 : ℚ) ^ (53 : ℤ) := by
+    have : (n : ℚ) ≤ ((4503599627370496 : Nat) : ℚ) := by exact_mod_cast hn
+    norm_num at this ⊢; linarith
+  have hk : Int.log 2 (n : ℚ) < 53 := (Int.lt_zpow_iff_log_lt (by norm_num) hpos).1 (by exact_mod_cast hlt)
+  have hc : cexp (n : ℚ) ≤ 0 := by
+    unfold cexp; rw [abs_of_pos hpos]; exact max_le (by omega) (by norm_num)
+  obtain ⟨j, hj⟩ := Int.eq_ofNat_of_zero_le (show 0 ≤ -cexp (n : ℚ) by omega)
+  have hc' : cexp (n : ℚ) = -(j : ℤ) := by omega
+  rw [rneQ_pos _ hpos, hc', zpow_neg, zpow_natCast]
+  have : (n : ℚ) / (2 ^ j)⁻¹ = (((n * 2 ^ j : Nat) : ℤ) : ℚ) := by push_cast; rw [div_inv_eq_mul]
+  rw [this, rneInt_intCast]
+  push_cast
+  have hp : (2 : ℚ) ^ j ≠ 0 := by positivity
+  field_simp
+
+theorem small_lt_big (n : Nat) (hn : n ≤ 4503599627370496) : |(n : ℚ)| < 2 ^ (1024 : ℤ) := by
+  have : (n : ℚ) ≤ ((4503599627370496 : Nat) : ℚ) := by exact_mod_cast hn
+  have e : (((4503599627370496 : Nat)) : ℚ) = 2 ^ (52 : ℤ) := by norm_num
+  rw [e] at this
+  rw [abs_of_nonneg (by positivity)]
+  exact lt_of_le_of_lt this (zpow_lt_zpow_right₀ (by norm_num) (by norm_num))
+
+theorem smant_mul (neg : Bool) (a b : Nat) : smant neg (a * b) = smant neg a * (b : ℤ) := by
+  cases neg <;> simp [smant]
+
+/-- ★ libm `floor` on the instance: the floor of a finite binary64 is a finite binary64 whose value is the mathematical
+    floor — no assumption left (`FloorExact` was a hypothesis of the `num_*` theorems) -/
+theorem floor_exact : FloorExact ieee := by
+  intro b hb
+  obtain ⟨neg, m, e, hd⟩ := hb
+  have hwf : m < 9007199254740992 := by have := decode_wf b; rw [hd] at this; exact this
+  show FinBits (floor b) ∧ valQ (floor b) = ((⌊valQ b⌋ : ℤ) : ℚ)
+  have hself : FinBits b := ⟨neg, m, e, hd⟩
+  have hv := valQ_smant b neg m e hd
+  unfold floor
+  rw [hd]
+  simp only []
+  by_cases he : 0 ≤ e
+  · rw [if_pos he]
+    obtain ⟨j, hj⟩ := Int.eq_ofNat_of_zero_le he
+    refine ⟨hself, ?_⟩
+    have : valQ b = ((smant neg m * 2 ^ j : ℤ) : ℚ) := by rw [hv, hj, zpow_natCast]; push_cast; ring
+    rw [this, Int.floor_intCast]
+  · rw [if_neg he]
+    obtain ⟨j, hj⟩ := Int.eq_ofNat_of_zero_le (show 0 ≤ -e by omega)
+    have he' : e = -(j : ℤ) := by omega
+    have hj1 : 1 ≤ j := by omega
+    rw [hj, Int.toNat_natCast]
+    have hp : (0 : ℚ) < 2 ^ j := by positivity
+    have hdm := Nat.div_add_mod m (2 ^ j)
+    have h2j : 2 ≤ 2 ^ j := by
+      calc 2 = 2 ^ 1 := rfl
+        _ ≤ 2 ^ j := Nat.pow_le_pow_right (by decide) hj1
+    have hf : m / 2 ^ j ≤ 4503599627370496 - 1 := by
+      have : 2 * (m / 2 ^ j) ≤ m := by
+        calc 2 * (m / 2 ^ j) ≤ 2 ^ j * (m / 2 ^ j) := Nat.mul_le_mul_right _ h2j
+          _ ≤ m := by omega
+      omega
+    generalize hfd : m / 2 ^ j = f at *
+    generalize hrd : m % 2 ^ j = r at *
+    have hrlt : r < 2 ^ j := by rw [← hrd]; exact Nat.mod_lt _ (Nat.two_pow_pos j)
+    have hmq : (m : ℚ) = (2 : ℚ) ^ j * (f : ℚ) + (r : ℚ) := by exact_mod_cast hdm.symm
+    by_cases hr : r = 0
+    · rw [if_pos hr]
+      refine ⟨hself, ?_⟩
+      have hm : m = f * 2 ^ j := by rw [hr, Nat.add_zero, Nat.mul_comm] at hdm; exact hdm.symm
+      have : valQ b = ((smant neg f : ℤ) : ℚ) := by
+        rw [hv, he', zpow_neg, zpow_natCast]
+        conv_lhs => rw [hm, smant_mul]
+        push_cast
+        field_simp
+      rw [this, Int.floor_intCast]
+    · rw [if_neg hr]
+      have hrq1 : (0 : ℚ) < (r : ℚ) := by exact_mod_cast Nat.pos_of_ne_zero hr
+      have hrq2 : (r : ℚ) < 2 ^ j := by exact_mod_cast hrlt
+      cases neg with
+      | true =>
+        rw [if_pos rfl]
+        have hx : -(((f + 1 : Nat)) : ℚ) = sgnQ true * (((f + 1 : Nat) : ℚ) / ((1 : Nat) : ℚ)) := by simp [sgnQ]
+        obtain ⟨r1, _⟩ := roundSigned_valQ true (f + 1) 1 (by decide) _ hx
+        have hrn : rneQ (-(((f + 1 : Nat)) : ℚ)) = -(((f + 1 : Nat)) : ℚ) := by
+          rw [rneQ_neg_of_pos _ (by positivity), rneQ_small_nat _ (by omega)]
+        rw [hrn, abs_neg] at r1
+        obtain ⟨f1, f2⟩ := r1 (small_lt_big _ (by omega))
+        refine ⟨f1, ?_⟩
+        rw [f2]
+        have hfl : ⌊valQ b⌋ = -((f + 1 : Nat) : ℤ) := by
+          rw [Int.floor_eq_iff, hv, he', zpow_neg, zpow_natCast]
+          simp only [smant, if_true, Int.ofNat_eq_natCast]
+          push_cast
+          constructor
+          · rw [le_mul_inv_iff₀ hp]; nlinarith
+          · rw [mul_inv_lt_iff₀ hp]; nlinarith
+        rw [hfl]; push_cast; ring
+      | false =>
+        rw [if_neg (by simp)]
+        have hx : ((f : Nat) : ℚ) = sgnQ false * (((f : Nat) : ℚ) / ((1 : Nat) : ℚ)) := by simp [sgnQ]
+        obtain ⟨r1, _⟩ := roundSigned_valQ false f 1 (by decide) _ hx
+        rw [rneQ_small_nat _ (by omega)] at r1
+        obtain ⟨f1, f2⟩ := r1 (small_lt_big _ (by omega))
+        refine ⟨f1, ?_⟩
+        rw [f2]
+        have hfl : ⌊valQ b⌋ = ((f : Nat) : ℤ) := by
+          rw [Int.floor_eq_iff, hv, he', zpow_neg, zpow_natCast]
+          simp only [smant, Bool.false_eq_true, if_false, Int.ofNat_eq_natCast]
+          push_cast
+          constructor
+          · rw [le_mul_inv_iff₀ hp]; nlinarith
+          · rw [mul_inv_lt_iff₀ hp]; nlinarith
+        rw [hfl]; push_cast; ring
+
+/-! ## the VM's handlers for `div`, `mod` on two numbers, over the instance -/
+
+theorem nonzero_of_isZeroBits (b : Nat) (n : Bool) (m : Nat) (e : ℤ) (hd : decode b = .fin n m e) (hz : isZeroBits b = false) :
+    m ≠ 0 := by
+  intro h0; subst h0
+  unfold isZeroBits at hz; rw [hd] at hz; simp at hz
+
+/-- ★ `(div a b)` on two finite numbers, b ≠ 0: **⌊RN(a / b)⌋** — the quotient of the two rationals rounded once to binary64
+    (`rneQ`), then the exact floor.  (Not always ⌊a / b⌋: when a / b lies within half an ulp below an integer the rounded
+    quotient is that integer.)  No assumption about the primitives is left; `hfin` = the quotient does not overflow. -/
+theorem ieee_num_div (a b : Nat) (ha : FinBits a) (hb : FinBits b) (hz : isZeroBits b = false)
+    (hfin : |rneQ (valQ a / valQ b)| < 2 ^ (1024 : ℤ)) :
+    FinBits (ieee.div a b) ∧ valQ (ieee.div a b) = rneQ (valQ a / valQ b) ∧
+    FinBits (numDivFloor ieee a b) ∧ valQ (numDivFloor ieee a b) = ((⌊rneQ (valQ a / valQ b)⌋ : ℤ) : ℚ) := by
+  obtain ⟨n1, m1, e1, h1⟩ := ha
+  obtain ⟨n2, m2, e2, h2⟩ := hb
+  obtain ⟨d1, d2⟩ := (div_correct a b n1 n2 m1 m2 e1 e2 h1 h2 (nonzero_of_isZeroBits b n2 m2 e2 h2 hz)).1 hfin
+  obtain ⟨f1, f2⟩ := floor_exact (div a b) d1
+  exact ⟨d1, d2, f1, by rw [← d2]; exact f2⟩
+
+/-- ★ `(mod a b)` on two finite numbers, b ≠ 0 (`(mod a ±0)` is `a`: `num_mod_zero_is_dividend`): with q = ⌊RN(a / b)⌋,
+    the result is **RN(a − RN(b · q))** — three roundings, each the nearest-even rounding of an exact rational -/
+theorem ieee_num_mod (a b : Nat) (ha : FinBits a) (hb : FinBits b) (hz : isZeroBits b = false)
+    (hfin1 : |rneQ (valQ a / valQ b)| < 2 ^ (1024 : ℤ))
+    (hfin2 : |rneQ (valQ b * ((⌊rneQ (valQ a / valQ b)⌋ : ℤ) : ℚ))| < 2 ^ (1024 : ℤ))
+    (hfin3 : |rneQ (valQ a - rneQ (valQ b * ((⌊rneQ (valQ a / valQ b)⌋ : ℤ) : ℚ)))| < 2 ^ (1024 : ℤ)) :
+    FinBits (numModulo ieee a b) ∧
+    valQ (numModulo ieee a b) = rneQ (valQ a - rneQ (valQ b * ((⌊rneQ (valQ a / valQ b)⌋ : ℤ) : ℚ))) := by
+  obtain ⟨_, _, f1, f2⟩ := ieee_num_div a b ha hb hz hfin1
+  have hnm : numModulo ieee a b = sub a (mul b (floor (div a b))) := by
+    unfold numModulo; rw [if_neg (by simp [hz])]; rfl
+  have hfl : numDivFloor ieee a b = floor (div a b) := rfl
+  rw [hfl] at f1 f2
+  obtain ⟨n1, m1, e1, h1⟩ := ha
+  obtain ⟨n2, m2, e2, h2⟩ := hb
+  obtain ⟨n3, m3, e3, h3⟩ := f1
+  obtain ⟨p1, p2⟩ := (mul_correct b (floor (div a b)) n2 n3 m2 m3 e2 e3 h2 h3).1 (by rw [f2]; exact hfin2)
+  rw [f2] at p2
+  obtain ⟨n4, m4, e4, h4⟩ := p1
+  obtain ⟨s1, s2⟩ := (sub_correct a (mul b (floor (div a b))) n1 n4 m1 m4 e1 e4 h1 h4).1 (by rw [p2]; exact hfin3)
+  rw [p2] at s2
+  rw [hnm]
+  exact ⟨s1, s2⟩
+
+/-- x is a binary64 value: the rounding leaves it alone and it is in range -/
+def Repr64 (x : ℚ) : Prop := rneQ x = x ∧ |x| < 2 ^ (1024 : ℤ)
+
+/-- ★ when the three exact intermediate results are binary64 values (e.g. small integers), `(mod a b)` is a − b⌊a/b⌋
+    exactly, in [0, b) for b > 0 and in (b, 0] for b < 0 — the `ExactAt` / `FloorExact` hypotheses of
+    `num_mod_floor_convention` are discharged by the instance -/
+theorem ieee_num_mod_exact (a b : Nat) (ha : FinBits a) (hb : FinBits b) (hz : isZeroBits b = false)
+    (r1 : Repr64 (valQ a / valQ b))
+    (r2 : Repr64 (valQ b * ((⌊valQ a / valQ b⌋ : ℤ) : ℚ)))
+    (r3 : Repr64 (valQ a - valQ b * ((⌊valQ a / valQ b⌋ : ℤ) : ℚ))) :
+    valQ (numModulo ieee a b) = valQ a - valQ b * ((⌊valQ a / valQ b⌋ : ℤ) : ℚ) ∧
+    (0 < valQ b → 0 ≤ valQ (numModulo ieee a b) ∧ valQ (numModulo ieee a b) < valQ b) ∧
+    (valQ b < 0 → valQ b < valQ (numModulo ieee a b) ∧ valQ (numModulo ieee a b) ≤ 0) := by
+  obtain ⟨d1, d2, f1, f2⟩ := ieee_num_div a b ha hb hz (by rw [r1.1]; exact r1.2)
+  rw [r1.1] at d2 f2
+  have hfl : numDivFloor ieee a b = ieee.floor (ieee.div a b) := rfl
+  rw [hfl] at f1 f2
+  have hd : ExactAt ieee.div (· / ·) a b := ⟨d1, d2⟩
+  obtain ⟨n2, m2, e2, h2⟩ := hb
+  obtain ⟨n3, m3, e3, h3⟩ := f1
+  obtain ⟨p1, p2⟩ := (mul_correct b (ieee.floor (ieee.div a b)) n2 n3 m2 m3 e2 e3 h2 h3).1 (by
+    show |rneQ (valQ b * valQ (ieee.floor (ieee.div a b)))| < _
+    rw [f2, r2.1]; exact r2.2)
+  have hm : ExactAt ieee.mul (· * ·) b (ieee.floor (ieee.div a b)) := ⟨p1, by
+    show valQ (mul b _) = _
+    rw [p2, f2, r2.1]⟩
+  obtain ⟨n1, m1, e1, h1⟩ := ha
+  obtain ⟨n4, m4, e4, h4⟩ := p1
+  have p2' : valQ (mul b (ieee.floor (ieee.div a b))) = valQ b * ((⌊valQ a / valQ b⌋ : ℤ) : ℚ) := by
+    rw [p2, f2, r2.1]
+  obtain ⟨s1, s2⟩ := (sub_correct a (mul b (ieee.floor (ieee.div a b))) n1 n4 m1 m4 e1 e4 h1 h4).1 (by
+    rw [p2', r3.1]; exact r3.2)
+  have hs : ExactAt ieee.sub (· - ·) a (ieee.mul b (ieee.floor (ieee.div a b))) := ⟨s1, by
+    show valQ (sub a (mul b (ieee.floor (ieee.div a b)))) = valQ a - valQ (mul b (ieee.floor (ieee.div a b)))
+    rw [s2, p2', r3.1]⟩
+  exact num_mod_value ieee floor_exact a b ⟨n2, m2, e2, h2⟩ hz hd hm hs
+
+/-! ## every binary64 value is a fixed point of the rounding -/
+
+theorem rneQ_fixes_pos (m : Nat) (e : ℤ) (hm0 : 0 < m) (hm : m < 9007199254740992) (he : -1074 ≤ e) :
+    rneQ ((m : ℚ) * 2 ^ e) = (m : ℚ) * 2 ^ e := by
+  have hmq : (0 : ℚ) < m := by exact_mod_cast hm0
+  have hpos : (0 : ℚ) < (m : ℚ) * 2 ^ e := mul_pos hmq (two_zpow_pos e)
+  have hlt : (m : ℚ) * 2 ^ e < 2 ^ (e + 53) := by
+    have : (m : ℚ) < 2 ^ (53 : ℤ) := by
+      have : (m : ℚ) < ((9007199254740992 : Nat) : ℚ) := by exact_mod_cast hm
+      norm_num at this ⊢; exact this
+    calc (m : ℚ) * 2 ^ e < 2 ^ (53 : ℤ) * 2 ^ e := mul_lt_mul_of_pos_right this (two_zpow_pos e)
+      _ = 2 ^ (e + 53) := by rw [zpow2_add]; congr 1; ring
+  have hk : Int.log 2 ((m : ℚ) * 2 ^ e) < e + 53 := (Int.lt_zpow_iff_log_lt (by norm_num) hpos).1 (by exact_mod_cast hlt)
+  have hc : cexp ((m : ℚ) * 2 ^ e) ≤ e := by
+    unfold cexp; rw [abs_of_pos hpos]; exact max_le (by omega) he
+  rw [rneQ_pos _ hpos]
+  generalize cexp ((m : ℚ) * 2 ^ e) = c at hc ⊢
+  obtain ⟨j, hj⟩ := Int.eq_ofNat_of_zero_le (show 0 ≤ e - c by omega)
+  have hsplit : (2 : ℚ) ^ e = 2 ^ j * 2 ^ c := by
+    rw [← zpow_natCast, zpow2_add]; congr 1; omega
+  have hc0 : (2 : ℚ) ^ c ≠ 0 := (two_zpow_pos _).ne'
+  have : (m : ℚ) * 2 ^ e / 2 ^ c = (((m * 2 ^ j : Nat) : ℤ) : ℚ) := by
+    rw [hsplit]
+    push_cast
+    field_simp
+  rw [this, rneInt_intCast, hsplit]
+  push_cast
+  ring
+
+theorem decode_fin_bounds (b : Nat) (n : Bool) (m : Nat) (e : ℤ) (h : decode b = .fin n m e) :
+    m < 9007199254740992 ∧ -1074 ≤ e ∧ e ≤ 971 := by
+  have hwf := decode_wf b
+  rw [h] at hwf
+  obtain ⟨_, hc⟩ := decode_value b n m e h
+  refine ⟨hwf, ?_⟩
+  rcases hc with ⟨_, _, he⟩ | ⟨h1, h2, _, he⟩
+  · omega
+  · omega
+
+/-- ★ every finite binary64 value is left alone by the rounding and is below 2^1024 in magnitude (`Repr64`) -/
+theorem repr64_of_finBits (a : Nat) (ha : FinBits a) : Repr64 (valQ a) := by
+  obtain ⟨n, m, e, hd⟩ := ha
+  obtain ⟨hm, he1, he2⟩ := decode_fin_bounds a n m e hd
+  rw [valQ_of_decode a n m e hd]
+  by_cases h0 : m = 0
+  · subst h0
+    simp only [Nat.cast_zero, zero_mul, mul_zero]
+    exact ⟨rneQ_zero, by rw [abs_zero]; exact two_zpow_pos _⟩
+  have hfix := rneQ_fixes_pos m e (Nat.pos_of_ne_zero h0) hm he1
+  have hmq : (0 : ℚ) < m := by exact_mod_cast Nat.pos_of_ne_zero h0
+  have hpos : (0 : ℚ) < (m : ℚ) * 2 ^ e := mul_pos hmq (two_zpow_pos e)
+  have hbig : (m : ℚ) * 2 ^ e < 2 ^ (1024 : ℤ) := by
+    have : (m : ℚ) < 2 ^ (53 : ℤ) := by
+      have : (m : ℚ) < ((9007199254740992 : Nat) : ℚ) := by exact_mod_cast hm
+      norm_num at this ⊢; exact this
+    calc (m : ℚ) * 2 ^ e < 2 ^ (53 : ℤ) * 2 ^ e := mul_lt_mul_of_pos_right this (two_zpow_pos e)
+      _ = 2 ^ ((53 : ℤ) + e) := zpow2_add _ _
+      _ ≤ 2 ^ (1024 : ℤ) := zpow2_mono (by omega)
+  cases n with
+  | false =>
+    simp only [sgnQ, Bool.false_eq_true, if_false, one_mul]
+    exact ⟨hfix, by rw [abs_of_pos hpos]; exact hbig⟩
+  | true =>
+    simp only [sgnQ, if_true, neg_one_mul]
+    exact ⟨by rw [rneQ_neg_of_pos _ hpos, hfix], by rw [abs_neg, abs_of_pos hpos]; exact hbig⟩
+
+/-- ★ hence each operation is **exact whenever the exact result is a binary64 value** (what `ExactAt` assumed) -/
+theorem ops_exact_when_representable (a b c : Nat) (ha : FinBits a) (hb : FinBits b) (hc : FinBits c) :
+    (valQ a + valQ b = valQ c → valQ (ieee.add a b) = valQ c) ∧
+    (valQ a - valQ b = valQ c → valQ (ieee.sub a b) = valQ c) ∧
+    (valQ a * valQ b = valQ c → valQ (ieee.mul a b) = valQ c) ∧
+    (isZeroBits b = false → valQ a / valQ b = valQ c → valQ (ieee.div a b) = valQ c) := by
+  obtain ⟨r1, r2⟩ := repr64_of_finBits c hc
+  obtain ⟨n1, m1, e1, h1⟩ := ha
+  obtain ⟨n2, m2, e2, h2⟩ := hb
+  refine ⟨fun h => ?_, fun h => ?_, fun h => ?_, fun hz h => ?_⟩
+  · have := ((add_correct a b n1 n2 m1 m2 e1 e2 h1 h2).1 (by rw [h, r1]; exact r2)).2
+    rw [h, r1] at this; exact this
+  · have := ((sub_correct a b n1 n2 m1 m2 e1 e2 h1 h2).1 (by rw [h, r1]; exact r2)).2
+    rw [h, r1] at this; exact this
+  · have := ((mul_correct a b n1 n2 m1 m2 e1 e2 h1 h2).1 (by rw [h, r1]; exact r2)).2
+    rw [h, r1] at this; exact this
+  · have := ((div_correct a b n1 n2 m1 m2 e1 e2 h1 h2 (nonzero_of_isZeroBits b n2 m2 e2 h2 hz)).1 (by rw [h, r1]; exact r2)).2
+    rw [h, r1] at this; exact this
 
 end JanetModel.Int64.Ieee
